@@ -66,8 +66,13 @@ impl DirectoryPackCreator {
         info!("----- Finalize entry_stores -----");
         // Entries may reference entries of another store:
         // all positions must be final before any store sizes its columns.
-        for entry_store in &mut self.entry_stores {
-            entry_store.set_final_positions();
+        // A store may also be sorted on such references: its order depends on the positions of
+        // another store, which may be set later in the pass. One pass per store settles every
+        // (acyclic) chain of such dependencies.
+        for _ in 0..self.entry_stores.len() {
+            for entry_store in &mut self.entry_stores {
+                entry_store.set_final_positions();
+            }
         }
         let finalized_entry_stores: Vec<Box<dyn WritableTell>> = self
             .entry_stores
